@@ -109,6 +109,7 @@ type outcome struct {
 	pan     interface{}
 	stack   string
 	hung    bool
+	slow    bool // returned, but only after the first 20 s
 	reached bool
 }
 
@@ -132,11 +133,23 @@ func guarded(f func() error) outcome {
 		}()
 		o.err = f()
 	}()
+	beats, at := vt.Beats(), time.Now()
 	select {
 	case o := <-ch:
 		return o
 	case <-time.After(20 * time.Second):
-		return outcome{hung: true}
+		if !vt.Starved(beats, at) {
+			return outcome{hung: true} // the machine was responsive all along: the setup is stuck
+		}
+		// a starved machine is not a hang: give it a long second chance, and report
+		// the case as discarded (not as held, not as violated) if it then returns
+		select {
+		case o := <-ch:
+			o.slow = true
+			return o
+		case <-time.After(100 * time.Second):
+			return outcome{hung: true}
+		}
 	}
 }
 
@@ -144,8 +157,11 @@ func runCase(c *Case, hard func(string)) (consumed bool, err error) {
 	text := c.text()
 	input := casket.CasketfileInput{Contents: []byte(text), Filepath: "Casketfile", ServerTypeName: "http"}
 	v := guarded(func() error { return casket.ValidateAndExecuteDirectives(input, nil, true) })
+	if v.slow {
+		return true, fmt.Errorf("HARNESS: validation took more than 20 s but did return (starved machine): no verdict")
+	}
 	if v.hung {
-		hard("validating the configuration did not return within 20s:\n" + text)
+		hard("validating the configuration did not return (20 s on a responsive machine, 120 s on a starved one):\n" + text)
 		return true, fmt.Errorf("HANG")
 	}
 	if v.pan != nil {
@@ -162,8 +178,11 @@ func runCase(c *Case, hard func(string)) (consumed bool, err error) {
 			one := &Case{Keys: []string{k}, Dirs: c.Dirs}
 			in1 := casket.CasketfileInput{Contents: []byte(one.text()), Filepath: "Casketfile", ServerTypeName: "http"}
 			o := guarded(func() error { return casket.ValidateAndExecuteDirectives(in1, nil, true) })
+			if o.slow {
+				return true, fmt.Errorf("HARNESS: validation took more than 20 s but did return (starved machine): no verdict")
+			}
 			if o.hung {
-				hard("validating the configuration did not return within 20s:\n" + one.text())
+				hard("validating the configuration did not return (20 s on a responsive machine, 120 s on a starved one):\n" + one.text())
 				return true, fmt.Errorf("HANG")
 			}
 			if o.pan != nil {
@@ -189,8 +208,14 @@ func runCase(c *Case, hard func(string)) (consumed bool, err error) {
 		inst, e = casket.Start(input)
 		return e
 	})
+	if s.slow {
+		if inst != nil && s.err == nil {
+			srv.Stop(inst)
+		}
+		return true, fmt.Errorf("HARNESS: start took more than 20 s but did return (starved machine): no verdict")
+	}
 	if s.hung {
-		hard("starting the configuration did not return within 20s:\n" + text)
+		hard("starting the configuration did not return (20 s on a responsive machine, 120 s on a starved one):\n" + text)
 		return true, fmt.Errorf("HANG")
 	}
 	if inst != nil && s.err == nil {
@@ -515,8 +540,11 @@ func runText(c *textCase, hard func(string)) error {
 	// twice: the second load must not hang on state left by the first
 	for i := 0; i < 2; i++ {
 		v := guarded(func() error { return casket.ValidateAndExecuteDirectives(input, nil, true) })
+		if v.slow {
+			return fmt.Errorf("HARNESS: validation took more than 20 s but did return (starved machine): no verdict")
+		}
 		if v.hung {
-			hard(fmt.Sprintf("validating (attempt %d) did not return within 20s:\n%s", i+1, c.Text))
+			hard(fmt.Sprintf("validating (attempt %d) did not return (20 s on a responsive machine, 120 s on a starved one):\n%s", i+1, c.Text))
 			return fmt.Errorf("HANG")
 		}
 		if v.pan != nil {
